@@ -57,6 +57,15 @@ pub fn battery(d: &mut Ddnnf, tt: &TT, rng: &mut Rng) -> Vec<(String, String, St
         want.sort();
         chk("enumerate (full cycle, as a set)".into(), got, want.join(";"));
     }
+    // atomic sets, plain and cross (a cache that survives an edit would show here)
+    if tt.count() > 0 && n >= 2 && n <= 10 {
+        let all: Vec<u32> = (1..=n).collect();
+        for cross in [false, true] {
+            let want = crate::atomic_props::oracle_atomic(tt, &all, &[], cross);
+            let got = guarded(|| { let g: Vec<Vec<i32>> = d.get_atomic_sets(None, &[], cross).iter().map(|s| s.iter().map(|&x| x as i32).collect()).collect(); if cross { crate::atomic_props::canon_cross(&g) } else { g } });
+            chk(format!("atomic{}", if cross { "-cross" } else { "" }), got.map(|g| format!("{:?}", g)), format!("{:?}", want));
+        }
+    }
     // seeded sampling: validity
     if tt.count() > 0 {
         let got = guarded(|| match d.uniform_random_sampling(&[], 5, 7) {
